@@ -34,3 +34,6 @@ open Lungo.C01
 #print axioms Lungo.C01.api_refines_run_from
 #print axioms Lungo.C01.api_refines_run
 #print axioms Lungo.C01.refines_createIndex
+#print axioms Lungo.C01.refines_updateOne
+#print axioms Lungo.C01.refines_updateMany
+#print axioms Lungo.C01.refines_findOneAndUpdate
